@@ -247,11 +247,58 @@ def c04(tier, rep):
                 if n >= 3:
                     p.branches[1] = dsl.Branch(dsl.O(init), list(p.branches[1].items) + [dsl.Op(op, [dsl.O("|v: i32| { ev(\"t.9.f\", &v); %s }" % stepv)], deferred=True)])
                 progs.append(fp.to_prog("twins/%s/%d/%d" % (mac, n, d), p, [[0]], cmp="Full" if not is_async else None))
+    progs += mirrored_recovery_programs()
     fr = e2.run_family("c04", progs, extra_header=fp.HEADER)
     judge_family(rep, fr)
     rep.set("profiles", len(profs))
-    rep.set("rule", "%s x 8 macro kinds x {no handler, handler, let on every branch, let on alternate branches + handler}; branch i starts at 100*i+offset and adds 1 per step; result (and handler arguments) compared with the reference tuple; distinct = program, non-trivial = trace non-empty and 2 distinct outcomes over the offset rows" % bound)
+    rep.set("rule", "mirrored recovery operands: 2-4 branches whose error-side operators (`!>`, `<=`, `<|`) carry BLOCK operands with branch-specific constants at the same action index of the same step, all 8 kinds, every subset of failing branches: position i must show branch i's own recovery value; %s x 8 macro kinds x {no handler, handler, let on every branch, let on alternate branches + handler}; branch i starts at 100*i+offset and adds 1 per step; result (and handler arguments) compared with the reference tuple; distinct = program, non-trivial = trace non-empty and 2 distinct outcomes over the offset rows" % bound)
     sample_family(rep, progs, fr)
+
+
+def mirrored_recovery_programs():
+    """every branch has the same shape — error-side operators with BLOCK operands at the same action index of the same step — but
+    branch-specific constants; every subset of the branches takes the error path: position i must carry branch i's own values"""
+    from . import fam_profiles as fp
+
+    progs = []
+    fmt = '\nformat!("{:?}", x)'
+    for mac in KINDS8:
+        is_try, is_async, is_spawn = mac.startswith("try"), "async" in mac, "spawn" in mac
+        for n in (2, 3, 4):
+            for d in (1, 2):
+                if n == 4 and (is_async or d == 2):
+                    continue
+                ds, rs = [], []
+                for b in range(n):
+                    init = "st_r(%d, %d, 100 * %d)" % (fp.slot(b, 0), fp.payload(b, 0), b)
+                    me = "{ let k = %d; move |e: i32| e + k }" % (20 + b)
+                    me2 = "{ let k = %d; move |e: i32| e + k }" % (50 + b)
+                    if is_async:
+                        oe = "{ let k = %d; move |e: i32| ready(if e %% 2 == 0 { Ok::<i32, i32>(e + k) } else { Err(e + k) }) }" % (30 + b)
+                        rc = "{ let k = %d; move |e: i32| ready(Ok::<i32, i32>(k + e * 0)) }" % (10 + b)
+                        ds.append("ready(%s) !> %s <= %s <= %s%s" % (init, me, oe, rc, (" ~!> %s" % me2) if d == 2 else ""))
+                        rs.append("{ use futures::TryFutureExt; ready(%s).map_err(%s).or_else(%s).or_else(%s)%s.await }" % (init, me, oe, rc, (".map_err(%s)" % me2) if d == 2 else ""))
+                    else:
+                        oe = "{ let k = %d; move |e: i32| if e %% 2 == 0 { Ok::<i32, i32>(e + k) } else { Err(e + k) } }" % (30 + b)
+                        rc = "{ Ok::<i32, i32>(%d) }" % (10 + b)
+                        rc2 = "{ Ok::<i32, i32>(%d) }" % (60 + b)
+                        ds.append("%s !> %s <= %s <| %s%s" % (init, me, oe, rc, (" ~!> %s <| %s" % (me2, rc2)) if d == 2 else ""))
+                        rs.append("%s.map_err(%s).or_else(%s).or(%s)%s" % (init, me, oe, rc, (".map_err(%s).or(%s)" % (me2, rc2)) if d == 2 else ""))
+                dtext = "%s! { %s }" % (mac, ", ".join(ds))
+                vals = ", ".join("v%d" % b for b in range(n))
+                lets = " ".join("let v%d = %s;" % (b, r) for b, r in enumerate(rs))
+                if is_try:
+                    tail = "(|| Ok::<_, i32>((%s)))()" % ", ".join("v%d?" % b for b in range(n))
+                else:
+                    tail = "(%s)" % vals
+                if is_async:
+                    rb = "let x = futures::executor::block_on(async { %s %s });%s" % (lets, tail, fmt)
+                    mb = ("let x = trt().block_on(%s);%s" if is_spawn else "let x = futures::executor::block_on(%s);%s") % (dtext, fmt)
+                else:
+                    rb = "let x = { %s %s };%s" % (lets, tail, fmt)
+                    mb = "let x = %s;%s" % (dtext, fmt)
+                progs.append(e2.Prog("mirror/%s/%d/%d" % (mac, n, d), rb, mb, [[0]], "Value", meta={"macro": mac, "dsl": dtext, "ref": rb}, sub=[fp.slot(b, 0) for b in range(n)]))
+    return progs
 
 
 # -------------------------------------------------------------------------------------------------
